@@ -101,11 +101,11 @@ def dump_round_trip_space(ctx, maxlen):
 # ---------------------------------------------------------------------------
 # 2. realisation and real round trips
 # ---------------------------------------------------------------------------
-def realise(abs_cell, nprng, offsets=True, edge=False, ncl=False):
+def realise(abs_cell, nprng, offsets=True, edge=False, ncl=False, scale=5.0):
     """abstract cell [sp,id,mom] -> triclinic PhonopyAtoms with pairwise distinct
     positions, partly outside [0,1)."""
     n = len(abs_cell)
-    L = np.eye(3) * 5.0 + nprng.uniform(-0.9, 0.9, size=(3, 3))
+    L = np.eye(3) * scale + nprng.uniform(-0.9, 0.9, size=(3, 3))
     if np.linalg.det(L) < 0:
         L[2] = -L[2]
     i = np.arange(n)
@@ -160,12 +160,12 @@ def MOM_OF(i):      # MomOf of Calculators.tla
     return (-1 - (i % 3)) if i % 2 == 0 else (1 + (i % 3))
 
 
-def api_round_trips(ctx, space, nprng, offsets=True):
+def api_round_trips(ctx, space, nprng, offsets=True, scale=5.0):
     """spec -> code replay of the enumerated (calculator, cell) space through
     write_crystal_structure / read_crystal_structure; also records the events."""
     events, margins = [], {}
     for calc, abs_cell, expected in space:
-        cell = realise(abs_cell, nprng, offsets=offsets)
+        cell = realise(abs_cell, nprng, offsets=offsets, scale=scale)
         mags = cell.magnetic_moments
         ev_list = []
         with cio.workdir():
@@ -188,6 +188,13 @@ def api_round_trips(ctx, space, nprng, offsets=True):
                 r, m = rt_result(calc, cell, back)
                 margins[calc] = max(margins.get(calc, 0.0), m)
                 ev_list.append(event("rt", calc, abs_cell, r, tag="write_crystal_structure"))
+                if mags is not None and calc in NCL_CALCS:       # the same cell with non-collinear moments
+                    celln = realise(abs_cell, nprng, offsets=offsets, ncl=True)
+                    with cio.quiet():
+                        write_crystal_structure("outn.in", celln, interface_mode=calc, optional_structure_info=info)
+                    cio.post_write(calc, "outn.in", info)
+                    r, m = rt_result(calc, celln, cio.read_back(calc, "outn.in"))
+                    ev_list.append(event("rt", calc, abs_cell, r, ncl=True, tag="write_crystal_structure (non-collinear)"))
             except Exception as e:  # noqa: BLE001
                 ev_list.append(event("rt", calc, abs_cell, dict(ERR),
                                      tag="write_crystal_structure: %s: %s" % (type(e).__name__, e)))
@@ -907,19 +914,29 @@ def run_replay(ctx):
     abs_cell = det.get("cell") or (ev or {}).get("cell")
     calc = str(det.get("calc")).split(":")[0]
     nprng = np.random.default_rng(1000 + rec.get("seed", 0))
-    if key.startswith("replay:structure:") or (ev and ev.get("kind") in ("rt", "read") and len(abs_cell) <= 13
-                                               and "supercell" not in str(det.get("how")) and "POSCAR" not in str(det.get("how"))):
+    if ev and ev.get("kind") == "convert":
+        rows = run_units(ctx)
+        dist = {c: cu.evaluate(rows[c]["dist"]) for c in cio.CALCS}
+        events, _ = conversions(ctx, [[a_["sp"] for a_ in abs_cell]], nprng, dist)
+        validate_structure_events(ctx, [e for e in events if e["calc"] == calc and e["ocalc"] == ev.get("ocalc")], "replay")
+    elif ev and calc == "wien2k" and ev.get("kind") == "forces" and len(abs_cell) >= 16:
+        events, _, _ = wien2k_force_sets(ctx, nprng)
+        validate_structure_events(ctx, events, "replay")
+    elif key.startswith("replay:structure:") or (ev and ev.get("kind") in ("rt", "read") and ev.get("route", "api") == "api"):
         expected = None
         if det.get("expected") is not None:
             expected = [dict(sp=a[0], id=a[1], mom=a[2]) for a in det["expected"]]
         events, _ = api_round_trips(ctx, [(calc, [dict(a) for a in abs_cell], expected)], nprng)
         validate_structure_events(ctx, events, "replay")
     else:
-        # a case of the supercell pipeline: re-run the pipeline for the unit cells of this seed
-        L = 3 if rec.get("tier", "quick") == "quick" else 4
-        seqs = [list(t) for n in range(1, L + 1) for t in __import__("itertools").product((1, 2, 3), repeat=n)]
-        events, _, _ = supercell_pipeline(ctx, seqs, nprng)
-        validate_structure_events(ctx, [e for e in events if e["calc"] == calc], "replay")
+        # a case of the supercell pipeline: re-run the pipeline in the recorded mode for all short unit cells
+        md = (ev or {}).get("mode") or NOMODE
+        mom = None
+        if ev and any(a_["mom"] for a_ in abs_cell):
+            mom = "ncl" if ev.get("ncl") else "col"
+        seqs = [list(t) for n in range(1, 4) for t in __import__("itertools").product((1, 2, 3), repeat=n)]
+        events, _, _ = supercell_pipeline(ctx, seqs, nprng, dtype=md["dtype"], fz=md["fz"], moments=mom, calcs=[calc])
+        validate_structure_events(ctx, events, "replay")
 
 
 def run(ctx):
@@ -927,7 +944,9 @@ def run(ctx):
         return run_replay(ctx)
     ctx.rule = ("structure: every (calculator, species sequence over 3 species, with/without moments) is one case, "
                 "realised as a triclinic cell with positions partly outside [0,1); plus every written perfect/displaced "
-                "supercell file of the Phonopy pipeline; units: every calculator's projected table and its physical replay")
+                "supercell file of the Phonopy pipeline in every mode (type-1/type-2 dataset, --fz, collinear and "
+                "non-collinear moments, WIEN2k P1/symmetric scf) and every conversion (calc_in, calc_out, sequence); "
+                "units: every calculator's projected table and its physical replay")
     import time
     t0 = time.time()
 
@@ -946,6 +965,13 @@ def run(ctx):
             seq = [1, 2, 1, 3, 2] + [ctx.rng.randint(1, 3) for _ in range(n - 5)]
             space.append((calc, [dict(sp=s_, id=i + 1, mom=0) for i, s_ in enumerate(seq)], None))
     ev1, m1 = api_round_trips(ctx, space, nprng)
+    # wide cells: Cartesian coordinates below -10 and above 30 length units (fixed-width fields of the writers)
+    # (31: coordinates <= -10; 120: lattice components and coordinates >= 100)
+    for seq, scale in (([1, 2, 1], 31.0), ([2, 1, 3, 1], 120.0)):
+        wide = [(calc, [dict(sp=s_, id=i + 1, mom=0) for i, s_ in enumerate(seq)], None) for calc in cio.CALCS]
+        ev1w, m1w = api_round_trips(ctx, wide, nprng, scale=scale)
+        ev1 += ev1w
+        m1 = {c: max(m1.get(c, 0.0), m1w.get(c, 0.0)) for c in set(m1) | set(m1w)}
     lap("api round trips")
     import itertools
     L = 3 if ctx.quick else 4
